@@ -82,7 +82,7 @@ func c13TLVTypes() []uint8 {
 }
 
 // c13GarbageLen: the largest garbage length for a command type. The number of paths grows with
-// (number of tags)^(number of TLVs that fit), so the quick tier stops where a third TLV would fit; the
+// (number of tags)^(number of TLVs that fit), so the quick tier stops at 13 bytes (two TLVs, the second one with an empty value); the
 // subscriber decoders additionally split their uid set on NUL bytes of symbolic content.
 func c13GarbageLen(t uint8) int {
 	if t == cmdTypeAddSubscribers || t == cmdTypeRemoveSubscribers {
@@ -92,9 +92,9 @@ func c13GarbageLen(t uint8) int {
 		return 11
 	}
 	if zzsym.Thorough() {
-		return 16
+		return 20
 	}
-	return 12
+	return 13
 }
 
 // c13Garbage feeds decodeCommand with an arbitrary byte string of length 0..max whose type byte is one of
